@@ -24,6 +24,7 @@
 #include <vector>
 #include <deque>
 #include <map>
+#include <algorithm>
 #include <queue>
 #include "lib/ebus/data.h"
 #include "lib/ebus/result.h"
@@ -823,6 +824,7 @@ class MessagePriorityQueue
     for (vector<Message*>::iterator it = c.begin(); it != c.end(); it++) {
       if (*it == __x) {
         c.erase(it);
+        std::make_heap(c.begin(), c.end(), comp);  // erasing from the middle breaks the heap order
         break;
       }
     }
@@ -836,6 +838,7 @@ class MessagePriorityQueue
     for (vector<Message*>::iterator it = c.begin(); it != c.end(); it++) {
       if (*it == __x) {
         c.erase(it);
+        std::make_heap(c.begin(), c.end(), comp);  // erasing from the middle breaks the heap order
         break;
       }
     }
